@@ -4,8 +4,9 @@ Real code under test (called in-process, `observe_at` of the property):
   * mokapot.utils.merge_sort                       (row-dict merge over text / Parquet files)
   * mokapot.streaming.MergedTabularDataReader      (.read, .get_chunked_data_iterator,
     .get_row_iterator for every TableType) and mokapot.streaming.merge_readers
-Lean side: driver ops `mergefiles`, `mergechecked`, `mergerechunk` (model) and `spec-C14-merge`,
-`spec-C14-checked` (the executable spec whose meaning is proved in C14_spec_*_iff).
+Lean side: driver ops `mergefiles`, `mergechecked`, `mergerechunk`, `mergecols` (model) and `spec-C14-merge`,
+`spec-C14-checked` (the executable spec whose meaning is proved in C14_spec_*_iff), `stablesort` (the declarative
+tie rule of C14_kmerge_eq_stable_sort / C14_checked_eq_stable_sort, cross-checked here against Python's stable sort).
 """
 from __future__ import annotations
 
@@ -27,7 +28,10 @@ RULE = (
     "reader chunk size 1..N+1, storage format text/Parquet/DataFrame, entry point, sorted-as-declared or "
     "perturbed); distinct = distinct (entry, format, direction, chunk, per-input score-rank sequences); "
     "non-trivial = at least two inputs or a tie or an unsorted input; thorough adds the exhaustive sweep over "
-    "all families of <=3 inputs over 3 score values (see exhaustive_sweep)"
+    "all families of <=3 inputs over 3 score values (see exhaustive_sweep); further dimensions: score class "
+    "(plain / differences of 2^-40 / integers next to 2^24, 2^31, 2^53), -0.0, name and position of the score "
+    "column, exact duplicate rows, constructor defaults, column selection `columns=` (with the score column in any "
+    "position, or without it)"
 )
 
 MERGER_ENTRIES = ["read", "chunked", "rows-df", "rows-dicts", "rows-records", "merge_readers"]
@@ -48,105 +52,172 @@ def tmpdir() -> Path:
 # ----------------------------------------------------------------------------
 # the real code
 # ----------------------------------------------------------------------------
-def fmt_score(s: Fraction, floaty: bool) -> str:
-    return repr(float(s)) if floaty else str(int(s))
+def fmt_score(s: Fraction, floaty: bool, negzero: bool = False) -> str:
+    if not floaty:
+        return str(int(s))
+    f = float(s)
+    return repr(-0.0 if (negzero and f == 0.0) else f)
 
 
-def write_input(i: int, rows, fmt: str, floaty: bool):
+def score_col(case) -> str:
+    return case.get("scol", "score")
+
+
+def file_columns(case):
+    """column order of every input: the score column first or last"""
+    sc = score_col(case)
+    return [sc, "id", "p"] if case.get("spos", "first") == "first" else ["id", "p", sc]
+
+
+def selected_columns(case):
+    """`columns=` argument in real column names (None = no selection)"""
+    if case.get("cols") is None:
+        return None
+    return [score_col(case) if c == "score" else c for c in case["cols"]]
+
+
+def write_input(i: int, rows, case):
     """materialise one input as a text file, a Parquet file or a DataFrame reader"""
     import pandas as pd
     from mokapot.tabular_data import CSVFileReader, DataFrameReader, ParquetFileReader
 
+    fmt, floaty, negzero = case["fmt"], case["floaty"], case.get("negzero", False)
+    sc = score_col(case)
+    order = file_columns(case)
     scores = [float(s) if floaty else int(s) for s, _ in rows]
+    if floaty and negzero:
+        scores = [-0.0 if x == 0.0 else x for x in scores]
     ids = [int(r) for _, r in rows]
     pay = [f"r{r}" for r in ids]
     if fmt == "csv":
         p = tmpdir() / f"in{i}.csv"
         with open(p, "w") as f:
-            f.write("score\tid\tp\n")
+            f.write("\t".join(order) + "\n")
             for (s, r) in rows:
-                f.write(f"{fmt_score(s, floaty)}\t{r}\tr{r}\n")
+                cell = {sc: fmt_score(s, floaty, negzero), "id": str(r), "p": f"r{r}"}
+                f.write("\t".join(cell[c] for c in order) + "\n")
         return p, CSVFileReader
     if fmt == "parquet":
         import pyarrow as pa
         import pyarrow.parquet as pq
 
         p = tmpdir() / f"in{i}.parquet"
-        tab = pa.table(
-            {
-                "score": pa.array(scores, type=pa.float64() if floaty else pa.int64()),
-                "id": pa.array(ids, type=pa.int64()),
-                "p": pa.array(pay, type=pa.string()),
-            }
-        )
-        pq.write_table(tab, p)
-        return p, ParquetFileReader
-    df = pd.DataFrame(
-        {
-            "score": pd.Series(scores, dtype="float64" if floaty else "int64"),
-            "id": pd.Series(ids, dtype="int64"),
-            "p": pd.Series(pay, dtype=object),
+        arrs = {
+            sc: pa.array(scores, type=pa.float64() if floaty else pa.int64()),
+            "id": pa.array(ids, type=pa.int64()),
+            "p": pa.array(pay, type=pa.string()),
         }
-    )
+        pq.write_table(pa.table({c: arrs[c] for c in order}), p)
+        return p, ParquetFileReader
+    ser = {
+        sc: pd.Series(scores, dtype="float64" if floaty else "int64"),
+        "id": pd.Series(ids, dtype="int64"),
+        "p": pd.Series(pay, dtype=object),
+    }
+    df = pd.DataFrame({c: ser[c] for c in order})
     return df, DataFrameReader
 
 
 def canon(score, rid, pay):
+    """(score, id, payload) with exact scores; None for a column that was not selected"""
     if hasattr(score, "item"):
         score = score.item()
     if hasattr(rid, "item"):
         rid = rid.item()
-    return (Fraction(score), int(rid), str(pay))
+    return (None if score is None else Fraction(score), None if rid is None else int(rid),
+            None if pay is None else str(pay))
+
+
+def tag(v) -> str:
+    """kind of a cell value: the merge must hand rows on unmodified, so an integer stays an integer"""
+    import numpy as np
+
+    if isinstance(v, (bool, np.bool_)):
+        return "b"
+    if isinstance(v, (int, np.integer)):
+        return "i"
+    if isinstance(v, (float, np.floating)):
+        return "f"
+    return type(v).__name__
 
 
 def run_impl(case):
-    """call the real function of `case`; returns dict(rows, err, exc, frames)"""
+    """call the real function of `case`; returns dict(rows, err, exc, frames, names, names_mixed, stypes, itypes)"""
     import mokapot.streaming as S
     import mokapot.utils as U
     from mokapot.tabular_data import TableType
 
     out, frames = [], None
-    res = dict(rows=out, err=False, exc=None, frames=None)
+    res = dict(rows=out, err=False, exc=None, frames=None, names=None, names_mixed=False, stypes=set(), itypes=set())
+    sc = score_col(case)
+
+    def take(names, get):
+        names = [str(n) for n in names]
+        if res["names"] is None:
+            res["names"] = names
+        elif res["names"] != names:
+            res["names_mixed"] = True
+        s = get(sc) if sc in names else None
+        rid = get("id") if "id" in names else None
+        pay = get("p") if "p" in names else None
+        if s is not None:
+            res["stypes"].add(tag(s))
+        if rid is not None:
+            res["itypes"].add(tag(rid))
+        out.append(canon(s, rid, pay))
+
+    def take_frame(fr):
+        names = list(fr.columns)
+        data = {c: list(fr[c]) for c in names}
+        for k in range(len(fr)):
+            take(names, lambda c, k=k: data[c][k])
+
     try:
-        srcs = [write_input(i, rows, case["fmt"], case["floaty"]) for i, rows in enumerate(case["inputs"])]
+        srcs = [write_input(i, rows, case) for i, rows in enumerate(case["inputs"])]
         if case["kind"] == "sort":
             old = U.MERGE_SORT_CHUNK_SIZE
             U.MERGE_SORT_CHUNK_SIZE = case["chunk"]
             try:
-                for r in U.merge_sort([p for p, _ in srcs], "score"):
-                    out.append(canon(r["score"], r["id"], r["p"]))
+                for r in U.merge_sort([p for p, _ in srcs], sc):
+                    take(r.keys(), r.__getitem__)
             finally:
                 U.MERGE_SORT_CHUNK_SIZE = old
             return res
         readers = [cls(obj) for obj, cls in srcs]
         entry = case["entry"]
+        defaults = case.get("defaults", False)  # descending=True and reader_chunk_size=1000 left to the defaults
+        sel = selected_columns(case)
+        kw = {} if sel is None else {"columns": sel}
         if entry == "merge_readers":
-            for fr in S.merge_readers(readers, "score", case["desc"], reader_chunk_size=case["chunk"]):
+            it = (S.merge_readers(readers, sc) if defaults
+                  else S.merge_readers(readers, sc, case["desc"], reader_chunk_size=case["chunk"]))
+            for fr in it:
                 assert len(fr) == 1, "merge_readers frame with != 1 row"
-                out.append(canon(fr["score"].iloc[0], fr["id"].iloc[0], fr["p"].iloc[0]))
+                take_frame(fr)
             return res
-        m = S.MergedTabularDataReader(readers, "score", case["desc"], reader_chunk_size=case["chunk"])
+        m = (S.MergedTabularDataReader(readers, sc) if defaults
+             else S.MergedTabularDataReader(readers, sc, case["desc"], reader_chunk_size=case["chunk"]))
         if entry == "read":
-            df = m.read()
-            out.extend(canon(a, b, c) for a, b, c in zip(df["score"], df["id"], df["p"]))
+            take_frame(m.read(**kw))
         elif entry == "chunked":
             frames = []
             res["frames"] = frames
-            for fr in m.get_chunked_data_iterator(chunk_size=case["outer"]):
-                rows = [canon(a, b, c) for a, b, c in zip(fr["score"], fr["id"], fr["p"])]
+            for fr in m.get_chunked_data_iterator(chunk_size=case["outer"], **kw):
                 if list(fr.index) != list(range(len(fr))):
                     raise AssertionError("frame index not reset")
-                frames.append(len(rows))
-                out.extend(rows)
+                n0 = len(out)
+                take_frame(fr)
+                frames.append(len(out) - n0)
         elif entry == "rows-df":
-            for r in m.get_row_iterator(row_type=TableType.DataFrame):
-                out.append(canon(r["score"].iloc[0], r["id"].iloc[0], r["p"].iloc[0]))
+            for r in m.get_row_iterator(row_type=TableType.DataFrame, **kw):
+                assert len(r) == 1, "row frame with != 1 row"
+                take_frame(r)
         elif entry == "rows-dicts":
-            for r in m.get_row_iterator(row_type=TableType.Dicts):
-                out.append(canon(r["score"], r["id"], r["p"]))
+            for r in m.get_row_iterator(row_type=TableType.Dicts, **kw):
+                take(r.keys(), r.__getitem__)
         elif entry == "rows-records":
-            for r in m.get_row_iterator(row_type=TableType.Records):
-                out.append(canon(r["score"], r["id"], r["p"]))
+            for r in m.get_row_iterator(row_type=TableType.Records, **kw):
+                take(r.dtype.names, r.__getitem__)
         else:
             raise AssertionError(entry)
     except ValueError as e:
@@ -172,19 +243,49 @@ def with_ids(score_lists):
     return [[(Fraction(s), 1000 * i + j) for j, s in enumerate(sc)] for i, sc in enumerate(score_lists)]
 
 
-def gen_case(rng, nmax=20):
+COLS_WITH_SCORE = [["score", "id", "p"], ["id", "score"], ["score", "id"], ["score"], ["p", "score"],
+                   ["p", "id", "score"], ["id", "p", "score"]]
+COLS_WITHOUT_SCORE = [["id"], ["id", "p"], ["p"]]
+COLS_ENTRIES = ["read", "chunked", "rows-df", "rows-dicts", "rows-records"]
+
+
+def gen_vals(rng, floaty, pool, sclass):
+    """score values; all exactly representable as float64 (and as int64 when not floaty)"""
+    if sclass == "fine":  # differences of 2^-40 around a few quarter values: lost by float32 / rounding
+        bases = [Fraction(rng.randint(-8, 8), 4) for _ in range(rng.choice([1, 2, 3]))]
+        return [rng.choice(bases) + Fraction(rng.randint(-3, 3), 2 ** 40) for _ in range(pool)]
+    if sclass == "big":  # integers next to 2^24 (float32), 2^31 (int32), 2^53 (float64)
+        anchors = [2 ** 24, 2 ** 31, 2 ** 53 - 8, -(2 ** 24), -(2 ** 31), -(2 ** 53) + 8]
+        near = [rng.choice(anchors) for _ in range(rng.choice([1, 2]))]
+        return [Fraction(rng.choice(near) + rng.randint(-7, 7)) for _ in range(pool)]
+    if floaty:
+        return [Fraction(rng.randint(-200, 200), 4) for _ in range(pool)]
+    return [Fraction(rng.randint(-60, 60)) for _ in range(pool)]
+
+
+def gen_case(rng, nmax=20, force_cols=False):
     k = rng.choice([1, 1, 2, 2, 2, 3, 3, 4, 5, 6, 7, 8])
     n = min(rng.choice([1, 2, 3, 3, 5, 8, 12, 20]), nmax)
     floaty = rng.random() < 0.4
     lens = [1 if rng.random() < 0.2 else rng.randint(1, n) for _ in range(k)]
     total = sum(lens)
     pool = rng.randint(1, max(1, min(total, rng.choice([2, 3, 5, 12, 40]))))
-    if floaty:
-        vals = [Fraction(rng.randint(-200, 200), 4) for _ in range(pool)]
-    else:
-        vals = [Fraction(rng.randint(-60, 60)) for _ in range(pool)]
-    kind = "sort" if rng.random() < 0.4 else "merger"
+    kind = "merger" if force_cols else ("sort" if rng.random() < 0.4 else "merger")
     desc = True if kind == "sort" else (rng.random() < 0.5)
+    if kind == "sort":
+        fmt = rng.choice(["csv", "parquet"])
+        entry = "merge_sort"
+    else:
+        fmt = rng.choice(["df", "df", "csv", "parquet"])
+        entry = rng.choice(COLS_ENTRIES if force_cols else MERGER_ENTRIES)
+    # score class: pandas' default text parser is not exact to the last bit on 17-digit decimals (trusted
+    # base, not the merge), so the precision-critical float classes are generated for Parquet/DataFrame only
+    sclass = rng.choice(["plain"] * 7 + ["fine"] * 2 + ["big"] * 2)
+    if sclass == "fine":
+        floaty = True
+    if floaty and fmt == "csv":
+        sclass = "plain"
+    vals = gen_vals(rng, floaty, pool, sclass)
     lists = [sorted((rng.choice(vals) for _ in range(m)), reverse=desc) for m in lens]
     shape = "sorted"
     if rng.random() < 0.3:
@@ -205,17 +306,39 @@ def gen_case(rng, nmax=20):
                 else:
                     li.append(max(vals) + 1 if desc else min(vals) - 1)
     inputs = with_ids(lists)
+    # exact duplicate rows (same score, id, payload): twice in one input, or in two inputs
+    dups = 0
+    if rng.random() < 0.12:
+        for _ in range(rng.choice([1, 1, 2])):
+            i = rng.randrange(k)
+            j = rng.randrange(len(inputs[i]))
+            row = inputs[i][j]
+            i2 = i if rng.random() < 0.5 else rng.randrange(k)
+            if i2 == i:
+                inputs[i].insert(j + 1, row)
+            else:
+                tgt = inputs[i2]
+                pos = 0
+                while pos < len(tgt) and ((tgt[pos][0] >= row[0]) if desc else (tgt[pos][0] <= row[0])):
+                    pos += 1
+                tgt.insert(pos, row)
+            dups += 1
+    total = sum(len(x) for x in inputs)
     n_eff = max(len(x) for x in inputs)
     chunk = rng.choice([1, 1, 2, n_eff, n_eff + 1, rng.randint(1, n_eff + 1)])
-    if kind == "sort":
-        fmt = rng.choice(["csv", "parquet"])
-        entry = "merge_sort"
-    else:
-        fmt = rng.choice(["df", "df", "csv", "parquet"])
-        entry = rng.choice(MERGER_ENTRIES)
     outer = rng.choice([1, 2, 3, total, total + 1, rng.randint(1, total + 1)])
+    scol = rng.choice(["score", "score", "score", "w", "mokapot score", "id2"])
+    spos = rng.choice(["first", "first", "last"])
+    negzero = floaty and rng.random() < 0.3
+    defaults = False
+    if kind == "merger" and desc and rng.random() < 0.12:
+        defaults, chunk = True, 1000  # descending=True, reader_chunk_size=1000 are the declared defaults
+    cols = None
+    if kind == "merger" and entry != "merge_readers" and (force_cols or rng.random() < 0.1):
+        cols = list(rng.choice(COLS_WITHOUT_SCORE if rng.random() < 0.12 else COLS_WITH_SCORE))
     return dict(kind=kind, inputs=inputs, desc=desc, chunk=chunk, fmt=fmt, entry=entry, outer=outer,
-                floaty=floaty, shape=shape)
+                floaty=floaty, shape=shape, sclass=sclass, scol=scol, spos=spos, negzero=negzero,
+                defaults=defaults, cols=cols, dups=dups)
 
 
 def gen_empty(rng):
@@ -295,7 +418,9 @@ def from_json(d):
 def pattern_key(case):
     vals = sorted({s for rows in case["inputs"] for s, _ in rows})
     rk = tuple(tuple(vals.index(s) for s, _ in rows) for rows in case["inputs"])
-    return (case["entry"], case["fmt"], case["desc"], case["chunk"], rk)
+    cols = case.get("cols")
+    return (case["entry"], case["fmt"], case["desc"], case["chunk"], rk, None if cols is None else tuple(cols),
+            case.get("defaults", False), case.get("spos", "first"), case.get("sclass", "plain"))
 
 
 def nontrivial(case):
@@ -318,39 +443,180 @@ def impl_results(cases):
     return list(_POOL.map(run_impl, cases, chunksize=64))
 
 
+def wire_cols(case):
+    """`columns=` on the wire: 0 = score, 1 = id (the payload column is not part of the model's rows)"""
+    return [0 if x == "score" else 1 for x in case["cols"] if x != "p"]
+
+
+DELIVER_ENTRIES = ("chunked", "merge_readers", "read")
+
+
 def eval_cases(chk, cases, tally=True):
     """run the real code and the Lean driver on `cases`; classify disagreements"""
     results = impl_results(cases)
     lines, idx = [], []
+
+    def ask(ix, name, line):
+        ix[name] = len(lines)
+        lines.append(line)
+
     for c, r in zip(cases, results):
         ins = wire_inputs(c)
-        out = wire_rows(r["rows"])
-        start = len(lines)
-        if c["kind"] == "sort":
-            lines.append(req("mergefiles", c["chunk"], ins))
-            lines.append(req("spec-C14-merge", ins, out))
-        else:
-            lines.append(req("mergechecked", c["desc"], c["chunk"], ins))
-            lines.append(req("spec-C14-checked", c["desc"], ins, out, bool(r["err"])))
+        ix = {}
+        idx.append(ix)
+        if c.get("cols") is not None:
+            ask(ix, "model", req("mergecols", c["desc"], c["chunk"], wire_cols(c), ins))
             if c["entry"] == "chunked":
-                lines.append(req("mergerechunk", c["outer"], out))
-        idx.append(start)
+                ask(ix, "rechunk", req("mergerechunk", c["outer"], [[0, k] for k in range(len(r["rows"]))]))
+            continue
+        out = wire_rows(r["rows"])
+        if c["kind"] == "sort":
+            ask(ix, "model", req("mergefiles", c["chunk"], ins))
+            ask(ix, "spec", req("spec-C14-merge", ins, out))
+        else:
+            ask(ix, "model", req("mergechecked", c["desc"], c["chunk"], ins))
+            ask(ix, "spec", req("spec-C14-checked", c["desc"], ins, out, bool(r["err"])))
+            if c["entry"] == "chunked":
+                ask(ix, "rechunk", req("mergerechunk", c["outer"], out))
+            if c["entry"] == "read":
+                ask(ix, "deliver", req("mergeread", c["desc"], c["chunk"], ins))
+            elif c["entry"] in DELIVER_ENTRIES:
+                ask(ix, "deliver", req("mergeframes", c["desc"], c["chunk"],
+                                       c["outer"] if c["entry"] == "chunked" else 1, ins))
+        ask(ix, "stable", req("stablesort", c["desc"], ins))
     resp = common.driver_batch(lines)
-    for c, r, i0 in zip(cases, results, idx):
-        classify(chk, c, r, resp, i0, tally)
+    for c, r, ix in zip(cases, results, idx):
+        classify(chk, c, r, resp, ix, tally)
 
 
-def classify(chk, c, r, resp, i0, tally=True):
-    model = resp[i0].strip()
-    spec = resp[i0 + 1].strip()
-    info = dict(case=jsonable(c), impl=[[str(s), i] for s, i, _ in r["rows"]], impl_raised=r["err"],
-                impl_exception=r["exc"])
+def stable_oracle(c):
+    """the declarative tie rule restated with Python's (stable) sort: the inputs written one after the other,
+    sorted by score in the declared direction, rows of equal score in their original order"""
+    flat = [(s, rid) for rows in c["inputs"] for s, rid in rows]
+    return sorted(flat, key=lambda t: t[0], reverse=bool(c["desc"]))
+
+
+def check_tie_rule(chk, c, info, impl_rows, stable_line):
+    """inputs sorted as declared and no error: the rows must come out in exactly the stable order"""
+    oracle = stable_oracle(c)
+    v = dec(stable_line)
+    spec_rows = parse_rows(v) if v != [] else []
+    if spec_rows != oracle:
+        chk.corr_break("stablesort-spec", dict(info, model=stable_line.strip(), oracle=[[str(a), b] for a, b in oracle]))
+        return False
+    if impl_rows != oracle:
+        chk.corr_break("tie-order", dict(info, model=stable_line.strip(),
+                                         note="order and content satisfy the spec, but rows of equal score do not "
+                                              "come out in (input index, position) order as the model's tie rule says"))
+        return False
+    return True
+
+
+def classify_cols(chk, c, r, resp, ix, info):
+    """`columns=` cases: spec restated directly on the projected rows, then the model (`mergecols`)"""
+    from collections import Counter
+
+    model = resp[ix["model"]].strip()
+    entry, cols = c["entry"], c["cols"]
+    if "score" not in cols:
+        # the priority column was not selected: nothing is promised; the model says the code refuses
+        if r["exc"] is not None:
+            chk.reject("columns-without-priority:" + r["exc"].split(":")[0])
+            if model != "reject-nokey":
+                chk.corr_break("mergecols-nokey", dict(info, model=model))
+        else:
+            chk.corr_break("mergecols-nokey", dict(info, model=model))
+        return
+    if r["exc"] is not None:
+        chk.spec_violation(f"exception:{entry}:columns:{r['exc'].split(':')[0]}",
+                           dict(info, clause="the merge raised although the selection keeps the priority column"))
+        return
+    if r["rows"] and (r["names"] != selected_columns(c) or r["names_mixed"]):
+        chk.spec_violation(f"columns:{entry}:names", dict(info, names=r["names"], clause="rows do not carry exactly the "
+                                                          "selected columns in the selected order"))
+        return
+
+    def proj(s, rid):
+        return (s if "score" in cols else None, rid if "id" in cols else None, f"r{rid}" if "p" in cols else None)
+
+    pool = Counter(proj(s, rid) for rows in c["inputs"] for s, rid in rows)
+    got = Counter(r["rows"])
+    unsorted = not all(is_sorted(x, c["desc"]) for x in c["inputs"])
+    scores = [row[0] for row in r["rows"]]
+    clause = None
+    if bool(r["err"]) != unsorted:
+        clause = "fail-error-iff-unsorted"
+    elif not all((a >= b) if c["desc"] else (a <= b) for a, b in zip(scores, scores[1:])):
+        clause = "fail-sorted"
+    elif not r["err"] and got != pool:
+        clause = "fail-perm"
+    elif r["err"] and (got - pool):
+        clause = "fail-subperm"
+    elif r["rows"] and (r["stypes"] != ({"f"} if c["floaty"] else {"i"}) or ("id" in cols and r["itypes"] != {"i"})):
+        clause = "row-modified:type"
+    if clause is not None:
+        chk.spec_violation(f"columns:{entry}:{clause}", dict(info, expected=model, clause=clause))
+        return
+    d = dec(model)
+    mrows = [[a_rat(x) for x in row] for row in d[0]] if d[0] != [] else []
+    merr = a_bool(d[1])
+    impl_rows = [[(row[0] if x == "score" else Fraction(row[1])) for x in cols if x != "p"] for row in r["rows"]]
+    if merr != bool(r["err"]):
+        chk.corr_break("mergecols", dict(info, model=model))
+        return
+    if entry in EXACT_ENTRIES or not merr:
+        seen = mrows
+    elif entry == "read":
+        seen = []
+    else:
+        seen = mrows[: (len(mrows) // c["outer"]) * c["outer"]]
+    if impl_rows != seen:
+        chk.corr_break("mergecols", dict(info, model=model))
+        return
+    if entry == "chunked":
+        frames = r["frames"]
+        fm = dec(resp[ix["rechunk"]])
+        fm = [len(x) for x in fm] if fm != [] else []
+        if sum(frames) != len(impl_rows) or any(f < 1 or f > c["outer"] for f in frames):
+            chk.spec_violation("chunked:frames", dict(info, frames=frames, clause="empty or oversize frame"))
+        elif frames != fm:
+            chk.corr_break("rechunk", dict(info, frames=frames, model=fm))
+
+
+def check_delivery(chk, c, r, info, impl_rows, line):
+    """C14_frames_delivered / C14_merge_readers_delivers_all: what the entry point handed on — frame by frame, and
+    whether the ValueError followed — must be exactly what the model of the entry point says"""
+    d = dec(line)
+    merr = a_bool(d[1])
+    if c["entry"] == "read":
+        mframes = [parse_rows(d[0])] if d[0] != [] else []
+        iframes = [impl_rows] if impl_rows else []
+    else:
+        mframes = [parse_rows(f) for f in d[0]] if d[0] != [] else []
+        sizes = r["frames"] if c["entry"] == "chunked" else [1] * len(impl_rows)
+        iframes, k = [], 0
+        for n in sizes:
+            iframes.append(impl_rows[k:k + n])
+            k += n
+    if merr != bool(r["err"]) or iframes != mframes:
+        chk.corr_break("mergeframes" if c["entry"] != "read" else "mergeread",
+                       dict(info, frames=[len(f) for f in iframes], model=line.strip()))
+        return False
+    return True
+
+
+def classify(chk, c, r, resp, ix, tally=True):
+    model = resp[ix["model"]].strip()
+    with_cols = c.get("cols") is not None
+    spec = "" if with_cols else resp[ix["spec"]].strip()
+    info = dict(case=jsonable(c), impl=[[None if s is None else str(s), i] for s, i, _ in r["rows"]],
+                impl_raised=r["err"], impl_exception=r["exc"])
     entry = c["entry"]
     has_empty = any(len(x) == 0 for x in c["inputs"])
     if tally:
         chk.case(None, pattern_key(c) if nontrivial(c) else None,
                  sample=dict(entry=entry, fmt=c["fmt"], desc=c["desc"], chunk=c["chunk"],
-                             inputs=[[str(s) for s, _ in rows] for rows in c["inputs"]],
+                             inputs=[[str(s) for s, _ in rows] for rows in c["inputs"]], columns=c.get("cols"),
                              impl=[str(s) for s, _, _ in r["rows"]], raised=r["err"], model=model[:200]))
         chk.count("entry", entry)
         chk.count("fmt", c["fmt"])
@@ -363,6 +629,14 @@ def classify(chk, c, r, resp, i0, tally=True):
         scores = [s for rows in c["inputs"] for s, _ in rows]
         chk.count("ties", len(set(scores)) < len(scores))
         chk.count("scores", "dyadic" if c["floaty"] else "int")
+        chk.count("score_class", c.get("sclass", "plain"))
+        chk.count("score_column", f"{score_col(c)}/{c.get('spos', 'first')}")
+        chk.count("neg_zero", bool(c.get("negzero")) and any(s == 0 for s in scores))
+        chk.count("duplicate_rows", min(c.get("dups", 0), 2))
+        chk.count("ctor_defaults", bool(c.get("defaults")))
+        cols = c.get("cols")
+        chk.count("columns", "none" if cols is None else ("without-score" if "score" not in cols else
+                                                          f"score@{cols.index('score')}/{len(cols)}"))
     # --- boundary: an input without rows -------------------------------------
     if has_empty:
         if r["exc"] is not None or r["err"]:
@@ -371,6 +645,9 @@ def classify(chk, c, r, resp, i0, tally=True):
                 chk.corr_break("merge-empty", dict(info, model=model))
         elif model == "reject-empty":
             chk.corr_break("merge-empty", dict(info, model=model))
+        return
+    if with_cols:
+        classify_cols(chk, c, r, resp, ix, info)
         return
     # --- the property promises success on every non-empty input family ---------
     if r["exc"] is not None:
@@ -383,6 +660,15 @@ def classify(chk, c, r, resp, i0, tally=True):
             chk.spec_violation(f"row-modified:{entry}",
                                dict(info, clause=f"row id={rid} came out as score={s} payload={pay}"))
             return
+    if r["rows"] and (r["names"] != file_columns(c) or r["names_mixed"]):
+        chk.spec_violation(f"row-modified:{entry}:columns",
+                           dict(info, names=r["names"], clause="rows do not carry the columns of the inputs, in order"))
+        return
+    if r["rows"] and (r["stypes"] != ({"f"} if c["floaty"] else {"i"}) or r["itypes"] != {"i"}):
+        chk.spec_violation(f"row-modified:{entry}:type",
+                           dict(info, score_kinds=sorted(r["stypes"]), id_kinds=sorted(r["itypes"]),
+                                clause="an integer/float cell came out as a value of another kind"))
+        return
     if spec != "ok":
         chk.spec_violation(f"{entry}:{spec}", dict(info, expected=model, clause=spec))
         return
@@ -412,7 +698,11 @@ def classify(chk, c, r, resp, i0, tally=True):
         same_seq = [s for s, _ in impl_rows] == [s for s, _ in mrows]
         if not same_set or (all_sorted and not same_seq):
             chk.corr_break("mergefiles", dict(info, model=model))
+            return
         tie_tally(chk, "merge_sort", impl_rows == mrows)
+        if all_sorted:
+            # C14_kmerge_eq_stable_sort: the result is determined row by row
+            check_tie_rule(chk, c, info, impl_rows, resp[ix["stable"]])
         return
     d = dec(model)
     mrows = parse_rows(d[0]) if d[0] != [] else []
@@ -427,30 +717,40 @@ def classify(chk, c, r, resp, i0, tally=True):
     else:  # chunked: only complete frames were delivered before the error
         seen = mrows[: (len(mrows) // c["outer"]) * c["outer"]]
     if merr:
-        # which rows precede the ValueError depends on the tie order, which the property leaves open:
-        # the spec (sorted, distinct input rows, error iff unsorted) was checked above; agreement of the
-        # yielded prefix with the model is recorded informationally only
+        # which rows precede the ValueError depends on the tie order, which the property leaves open: the spec
+        # (sorted, distinct input rows, error iff unsorted) was checked above; the model's first-index tie rule
+        # (np.argmax / np.argmin) fixes the yielded prefix exactly, and the real code must agree with it
         tie_tally(chk, "merger-prefix-before-error", impl_rows == seen)
+        if impl_rows != seen:
+            chk.corr_break("mergechecked-prefix", dict(info, model=model))
+            return
     else:
         if [s for s, _ in impl_rows] != [s for s, _ in seen] or sorted(impl_rows) != sorted(seen):
             chk.corr_break("mergechecked", dict(info, model=model))
             return
         tie_tally(chk, "merger", impl_rows == seen)
+        # C14_checked_eq_stable_sort: no error, so every input is sorted as declared and the result is the stable sort
+        if not check_tie_rule(chk, c, info, impl_rows, resp[ix["stable"]]):
+            return
     if entry == "chunked":
         frames = r["frames"]
-        fm = dec(resp[i0 + 2])
+        fm = dec(resp[ix["rechunk"]])
         fm = [len(x) for x in fm] if fm != [] else []
         if sum(frames) != len(impl_rows) or any(f < 1 or f > c["outer"] for f in frames):
             chk.spec_violation("chunked:frames", dict(info, frames=frames, clause="empty or oversize frame"))
-        elif frames != fm:
+            return
+        if frames != fm:
             chk.corr_break("rechunk", dict(info, frames=frames, model=fm))
+            return
+    if entry in DELIVER_ENTRIES:
+        check_delivery(chk, c, r, info, impl_rows, resp[ix["deliver"]])
 
 
 def tie_tally(chk, which, same):
     """informational: does the real tie order equal the model's first-input-wins order?"""
     t = chk.extra.setdefault("tie_order_agreement", {})
-    a, b = t.get(which, (0, 0))
-    t[which] = (a + (1 if same else 0), b + 1)
+    a, b = (int(x) for x in t.get(which, "0/0").split("/"))  # kept printable: the search runs inside finish()
+    t[which] = f"{a + (1 if same else 0)}/{b + 1}"
 
 
 # ----------------------------------------------------------------------------
@@ -507,6 +807,8 @@ def search(chk):
     rng = chk.rng
     eval_cases(chk, [gen_case(rng, 8) for _ in range(4000)])
     if not chk.spec_violations:
+        eval_cases(chk, [gen_case(rng, 8, force_cols=True) for _ in range(1000)])
+    if not chk.spec_violations:
         eval_cases(chk, exhaustive_cases("thorough"))
     minimise(chk)
 
@@ -520,6 +822,7 @@ def main(chk, args):
     cases = corpus_cases()
     cases += [gen_case(rng) for _ in range(1500 if quick else 60000)]
     cases += [gen_empty(rng) for _ in range(40 if quick else 300)]
+    cases += [gen_case(rng, force_cols=True) for _ in range(250 if quick else 6000)]
     eval_cases(chk, cases)
     ex = exhaustive_cases(chk.tier)
     eval_cases(chk, ex)
@@ -531,8 +834,6 @@ def main(chk, args):
         "rotated; merge_sort on every sorted family among them (text" + ("/Parquet)" if not quick else ")")
     )
     minimise(chk)
-    t = chk.extra.get("tie_order_agreement", {})
-    chk.extra["tie_order_agreement"] = {k: f"{a}/{b}" for k, (a, b) in t.items()}
     lc = common.leanchecker("C14") if chk.tier == "thorough" else None
     chk.assumptions += [
         "scores are finite numbers exactly representable as float64 (integers, dyadic rationals): no NaN, so "
@@ -541,8 +842,16 @@ def main(chk, args):
         "file in order, in consecutive batches (modelled by kmChunks; any batching gives the same row sequence)",
         "np.argmax / np.argmin return the first index of the extreme value; Python dicts iterate in insertion "
         "order and keep the position of a replaced value",
-        "rows are compared as (score, id, payload) triples; the tie order among equal scores is not part of the "
-        "property: it is compared with the model only informationally (tie_order_agreement)",
+        "rows are compared as (score, id, payload) triples with the kind (integer/float) of score and id and the "
+        "column names; the tie order among equal scores is not part of the property's text, but it is fixed by the "
+        "model (first input wins = stable sort of the concatenated inputs, C14_kmerge_eq_stable_sort / "
+        "C14_checked_eq_stable_sort): a different tie order is reported as a correspondence break (`tie-order`), "
+        "not as a spec violation; the Lean spec function is cross-checked against Python's stable `sorted`",
+        "the precision-critical float score classes (differences of 2^-40, floats next to 2^53) are generated for "
+        "Parquet and DataFrame inputs only: pandas' default text parser is not exact to the last bit on 17-digit "
+        "decimals (the same in chunked and whole-file reads; trusted base of C13, not the merge)",
+        "`columns=` without the priority column: the lookup raises (KeyError; ValueError for record rows) before "
+        "anything is yielded (tallied as rejected)",
         "an input without rows makes both functions raise RuntimeError before the first row (tallied as rejected)",
     ]
     chk.finish(build, RULE, search=search, lc=lc,
